@@ -701,7 +701,12 @@ def evaluate_quality_metric(
         assert isinstance(quality_metric, Oversubscription)
         total_gain: Union[Fraction, int] = 0
         for goal, gain in quality_metric.goals.items():
-            if se.evaluate(goal, next_state).bool_constant_value():
+            try:
+                satisfied = se.evaluate(goal, next_state).bool_constant_value()
+            except UPStateMissingFluentError:
+                # a goal that reads a fluent with no value is not satisfied
+                satisfied = False
+            if satisfied:
                 total_gain += gain
         return total_gain
     else:
@@ -746,7 +751,12 @@ def evaluate_quality_metric_in_initial_state(
         assert isinstance(quality_metric, Oversubscription)
         total_gain: Union[Fraction, int] = 0
         for goal, gain in quality_metric.goals.items():
-            if se.evaluate(goal, initial_state).bool_constant_value():
+            try:
+                satisfied = se.evaluate(goal, initial_state).bool_constant_value()
+            except UPStateMissingFluentError:
+                # a goal that reads a fluent with no value is not satisfied
+                satisfied = False
+            if satisfied:
                 total_gain += gain
         return total_gain
     else:
